@@ -248,16 +248,16 @@ Section Writers.
 End Writers.
 
 (* ------------------------------------------------------------------ structure of a run *)
-Lemma run_inv : forall gr rr pr o ids vs cs out,
-  run gr rr pr o ids vs cs = Some out ->
-  exists rs, map_opt (chrom_step pr o ids vs) cs = Some rs /\
+Lemma run_inv : forall gr rr pr er o ids vs cs out,
+  run gr rr pr er o ids vs cs = Some out ->
+  exists rs, map_opt (chrom_step pr er o ids vs) cs = Some rs /\
     out_reads out = requested (o_reads o) (write_calls PerRun (flat_map cr_reads rs)) /\
     out_gts out = requested (o_gts o) (write_calls gr (flat_map cr_gts rs)) /\
     out_recs out = requested (o_recs o) (write_calls rr (flat_map cr_recs rs)) /\
     out_vcf out = map cr_vcf rs.
 Proof.
-  intros gr rr pr o ids vs cs out H; unfold run in H.
-  destruct (map_opt (chrom_step pr o ids vs) cs) as [rs|] eqn:Ers; [|discriminate].
+  intros gr rr pr er o ids vs cs out H; unfold run in H.
+  destruct (map_opt (chrom_step pr er o ids vs) cs) as [rs|] eqn:Ers; [|discriminate].
   injection H as <-; exists rs; cbn; auto.
 Qed.
 
@@ -278,17 +278,17 @@ Lemma Forall2_map_l : forall (A A' B : Type) (P : A' -> B -> Prop) (f : A -> A')
 Proof. intros A A' B P f l r H; induction H; cbn [map]; constructor; assumption. Qed.
 
 (* the calls of write_recombination_list: one per processed (chromosome, family), in processing order *)
-Lemma rec_calls_instances : forall pr o ids vs cs rs,
-  o_recs o = true -> map_opt (chrom_step pr o ids vs) cs = Some rs ->
-  Forall2 (fun ci es => inst_rec_entries (c_name (fst ci)) (snd ci) = Some es)
+Lemma rec_calls_instances : forall pr er o ids vs cs rs,
+  o_recs o = true -> map_opt (chrom_step pr er o ids vs) cs = Some rs ->
+  Forall2 (fun ci es => inst_rec_entries er (c_name (fst ci)) (snd ci) = Some es)
           (instances cs) (flat_map cr_recs rs).
 Proof.
-  intros pr o ids vs cs rs Ho H; apply map_opt_Forall2 in H; unfold instances.
+  intros pr er o ids vs cs rs Ho H; apply map_opt_Forall2 in H; unfold instances.
   eapply Forall2_flat_map; [exact H|].
   intros c r _ Hc; cbn beta in Hc; unfold chrom_step in Hc; rewrite Ho in Hc.
   destruct (c_selected c).
   - destruct (if o_reads o then _ else _) as [rd|]; [|discriminate].
-    destruct (map_opt (inst_rec_entries (c_name c)) (c_insts c)) as [rc|] eqn:Erc; [|discriminate].
+    destruct (map_opt (inst_rec_entries er (c_name c)) (c_insts c)) as [rc|] eqn:Erc; [|discriminate].
     destruct (write_records _ _ _ _ _ _) as [wr|]; [|discriminate].
     injection Hc as <-; cbn [cr_recs].
     apply Forall2_map_l; cbn [fst snd]; apply map_opt_Forall2; exact Erc.
@@ -297,14 +297,14 @@ Proof.
 Qed.
 
 (* the calls of write_changed_genotypes: one per processed chromosome *)
-Lemma gt_calls_chromosomes : forall pr o ids vs cs rs,
-  o_gts o = true -> map_opt (chrom_step pr o ids vs) cs = Some rs ->
+Lemma gt_calls_chromosomes : forall pr er o ids vs cs rs,
+  o_gts o = true -> map_opt (chrom_step pr er o ids vs) cs = Some rs ->
   Forall2 (fun c es => exists wr,
              write_records pr (c_name c) vs (targets_of (c_insts c)) None (c_records c) = Some wr /\
              es = concat (map fst wr))
           (filter c_selected cs) (flat_map cr_gts rs).
 Proof.
-  intros pr o ids vs cs rs Ho H; apply map_opt_Forall2 in H.
+  intros pr er o ids vs cs rs Ho H; apply map_opt_Forall2 in H.
   induction H as [|c r t rs' Hc _ IH]; cbn [filter flat_map].
   - constructor.
   - unfold chrom_step in Hc; rewrite Ho in Hc.
@@ -336,13 +336,13 @@ Proof.
     apply (lookup_const_map _ _ (fun m : Z * (superread * superread) => fst m)); exact Hs.
 Qed.
 
-Lemma read_calls_instances : forall pr o ids vs cs rs,
-  o_reads o = true -> map_opt (chrom_step pr o ids vs) cs = Some rs ->
+Lemma read_calls_instances : forall pr er o ids vs cs rs,
+  o_reads o = true -> map_opt (chrom_step pr er o ids vs) cs = Some rs ->
   Forall2 (fun ci es => exists sc, read_entries ids sc (snd ci) = Some es /\
              forall s, In s (map fst (inst_members (snd ci))) -> lookup s sc = Some (i_comps (snd ci)))
           (instances cs) (flat_map cr_reads rs).
 Proof.
-  intros pr o ids vs cs rs Ho H; apply map_opt_Forall2 in H; unfold instances.
+  intros pr er o ids vs cs rs Ho H; apply map_opt_Forall2 in H; unfold instances.
   eapply Forall2_flat_map; [exact H|].
   intros c r _ Hc; cbn beta in Hc; unfold chrom_step in Hc; rewrite Ho in Hc.
   destruct (c_selected c).
@@ -356,36 +356,36 @@ Proof.
 Qed.
 
 (* ------------------------------------------------------------------ lists_cover_run *)
-Theorem read_list_covers_run : forall gr rr pr o ids vs cs out,
-  o_reads o = true -> run gr rr pr o ids vs cs = Some out ->
+Theorem read_list_covers_run : forall gr rr pr er o ids vs cs out,
+  o_reads o = true -> run gr rr pr er o ids vs cs = Some out ->
   exists calls,
     Forall2 (fun ci es => exists sc, read_entries ids sc (snd ci) = Some es /\
                forall s, In s (map fst (inst_members (snd ci))) -> lookup s sc = Some (i_comps (snd ci)))
             (instances cs) calls /\
     out_reads out = Some (Header :: map Entry (concat calls)).
 Proof.
-  intros gr rr pr o ids vs cs out Ho H.
-  destruct (run_inv _ _ _ _ _ _ _ _ H) as [rs [Hrs [Hr _]]].
+  intros gr rr pr er o ids vs cs out Ho H.
+  destruct (run_inv _ _ _ _ _ _ _ _ _ H) as [rs [Hrs [Hr _]]].
   exists (flat_map cr_reads rs); split.
   - eapply read_calls_instances; eassumption.
   - rewrite Hr, Ho; cbn [requested]; apply write_calls_PerRun.
 Qed.
 
-Theorem recombination_list_covers_run_repaired : forall gr pr o ids vs cs out,
-  o_recs o = true -> run gr PerRun pr o ids vs cs = Some out ->
+Theorem recombination_list_covers_run_repaired : forall gr pr er o ids vs cs out,
+  o_recs o = true -> run gr PerRun pr er o ids vs cs = Some out ->
   exists calls,
-    Forall2 (fun ci es => inst_rec_entries (c_name (fst ci)) (snd ci) = Some es) (instances cs) calls /\
+    Forall2 (fun ci es => inst_rec_entries er (c_name (fst ci)) (snd ci) = Some es) (instances cs) calls /\
     out_recs out = Some (Header :: map Entry (concat calls)).
 Proof.
-  intros gr pr o ids vs cs out Ho H.
-  destruct (run_inv _ _ _ _ _ _ _ _ H) as [rs [Hrs [_ [_ [Hr _]]]]].
+  intros gr pr er o ids vs cs out Ho H.
+  destruct (run_inv _ _ _ _ _ _ _ _ _ H) as [rs [Hrs [_ [_ [Hr _]]]]].
   exists (flat_map cr_recs rs); split.
   - eapply rec_calls_instances; eassumption.
   - rewrite Hr, Ho; cbn [requested]; apply write_calls_PerRun.
 Qed.
 
-Theorem changed_genotype_list_covers_run_repaired : forall rr pr o ids vs cs out,
-  o_gts o = true -> run PerRun rr pr o ids vs cs = Some out ->
+Theorem changed_genotype_list_covers_run_repaired : forall rr pr er o ids vs cs out,
+  o_gts o = true -> run PerRun rr pr er o ids vs cs = Some out ->
   exists calls,
     Forall2 (fun c es => exists wr,
                write_records pr (c_name c) vs (targets_of (c_insts c)) None (c_records c) = Some wr /\
@@ -393,29 +393,29 @@ Theorem changed_genotype_list_covers_run_repaired : forall rr pr o ids vs cs out
             (filter c_selected cs) calls /\
     out_gts out = Some (Header :: map Entry (concat calls)).
 Proof.
-  intros rr pr o ids vs cs out Ho H.
-  destruct (run_inv _ _ _ _ _ _ _ _ H) as [rs [Hrs [_ [Hg _]]]].
+  intros rr pr er o ids vs cs out Ho H.
+  destruct (run_inv _ _ _ _ _ _ _ _ _ H) as [rs [Hrs [_ [Hg _]]]].
   exists (flat_map cr_gts rs); split.
   - eapply gt_calls_chromosomes; eassumption.
   - rewrite Hg, Ho; cbn [requested]; apply write_calls_PerRun.
 Qed.
 
 (* what the current code leaves behind instead: the entries of the last call only *)
-Theorem recombination_list_current_last_only : forall gr pr o ids vs cs out,
-  o_recs o = true -> run gr PerCall pr o ids vs cs = Some out ->
+Theorem recombination_list_current_last_only : forall gr pr er o ids vs cs out,
+  o_recs o = true -> run gr PerCall pr er o ids vs cs = Some out ->
   exists calls,
-    Forall2 (fun ci es => inst_rec_entries (c_name (fst ci)) (snd ci) = Some es) (instances cs) calls /\
+    Forall2 (fun ci es => inst_rec_entries er (c_name (fst ci)) (snd ci) = Some es) (instances cs) calls /\
     out_recs out = match rev calls with [] => None | es :: _ => Some (Header :: map Entry es) end.
 Proof.
-  intros gr pr o ids vs cs out Ho H.
-  destruct (run_inv _ _ _ _ _ _ _ _ H) as [rs [Hrs [_ [_ [Hr _]]]]].
+  intros gr pr er o ids vs cs out Ho H.
+  destruct (run_inv _ _ _ _ _ _ _ _ _ H) as [rs [Hrs [_ [_ [Hr _]]]]].
   exists (flat_map cr_recs rs); split.
   - eapply rec_calls_instances; eassumption.
   - rewrite Hr, Ho; cbn [requested]; apply write_calls_PerCall.
 Qed.
 
-Theorem changed_genotype_list_current_last_only : forall rr pr o ids vs cs out,
-  o_gts o = true -> run PerCall rr pr o ids vs cs = Some out ->
+Theorem changed_genotype_list_current_last_only : forall rr pr er o ids vs cs out,
+  o_gts o = true -> run PerCall rr pr er o ids vs cs = Some out ->
   exists calls,
     Forall2 (fun c es => exists wr,
                write_records pr (c_name c) vs (targets_of (c_insts c)) None (c_records c) = Some wr /\
@@ -423,8 +423,8 @@ Theorem changed_genotype_list_current_last_only : forall rr pr o ids vs cs out,
             (filter c_selected cs) calls /\
     out_gts out = match rev calls with [] => None | es :: _ => Some (Header :: map Entry es) end.
 Proof.
-  intros rr pr o ids vs cs out Ho H.
-  destruct (run_inv _ _ _ _ _ _ _ _ H) as [rs [Hrs [_ [Hg _]]]].
+  intros rr pr er o ids vs cs out Ho H.
+  destruct (run_inv _ _ _ _ _ _ _ _ _ H) as [rs [Hrs [_ [Hg _]]]].
   exists (flat_map cr_gts rs); split.
   - eapply gt_calls_chromosomes; eassumption.
   - rewrite Hg, Ho; cbn [requested]; apply write_calls_PerCall.
@@ -478,8 +478,8 @@ Proof.
   intros x l H; apply existsb_exists in H; destruct H as [y [Hy E]]; apply Z.eqb_eq in E; subst; exact Hy.
 Qed.
 
-Theorem read_list_entries : forall gr rr pr o ids vs cs out lines e,
-  run gr rr pr o ids vs cs = Some out -> run_wf ids cs = true ->
+Theorem read_list_entries : forall gr rr pr er o ids vs cs out lines e,
+  run gr rr pr er o ids vs cs = Some out -> run_wf ids cs = true ->
   out_reads out = Some lines -> In (Entry e) lines ->
   exists c i r h v0 rest b,
     In c cs /\ c_selected c = true /\ In i (c_insts c) /\
@@ -491,11 +491,11 @@ Theorem read_list_entries : forall gr rr pr o ids vs cs out lines e,
     re_first e = fst v0 + 1 /\ re_last e = fst (last (r_vars r) v0) + 1 /\
     lookup (fst v0) (i_comps i) = Some b /\ re_ps e = b + 1.
 Proof.
-  intros gr rr pr o ids vs cs out lines e Hrun Hwf Hlines HI.
+  intros gr rr pr er o ids vs cs out lines e Hrun Hwf Hlines HI.
   assert (Ho : o_reads o = true).
-  { destruct (run_inv _ _ _ _ _ _ _ _ Hrun) as [rs [_ [Hr _]]].
+  { destruct (run_inv _ _ _ _ _ _ _ _ _ Hrun) as [rs [_ [Hr _]]].
     destruct (o_reads o); [reflexivity|]. rewrite Hr in Hlines; discriminate. }
-  destruct (read_list_covers_run _ _ _ _ _ _ _ _ Ho Hrun) as [calls [HF Hfile]].
+  destruct (read_list_covers_run _ _ _ _ _ _ _ _ _ Ho Hrun) as [calls [HF Hfile]].
   rewrite Hfile in Hlines; injection Hlines as <-.
   destruct HI as [HI|HI]; [discriminate|].
   apply in_map_iff in HI; destruct HI as [x [Hx HI]]; injection Hx as ->.
@@ -577,9 +577,9 @@ Proof.
   apply NoDup_map_filter; exact H.
 Qed.
 
-Lemma find_recombination_spec : forall tv comps positions costs evs ev,
+Lemma find_recombination_spec : forall er tv comps positions costs evs ev,
   NoDup (map fst comps) ->
-  find_recombination tv comps positions costs = Some evs -> In ev evs ->
+  find_recombination er tv comps positions costs = Some evs -> In ev evs ->
   exists b ta ca tb cb,
     lookup (ev_p1 ev) comps = Some b /\ lookup (ev_p2 ev) comps = Some b /\
     ev_p1 ev < ev_p2 ev /\
@@ -589,7 +589,15 @@ Lemma find_recombination_spec : forall tv comps positions costs evs ev,
     ta <> tb /\ ev_f1 ev = ta mod 2 /\ ev_f2 ev = tb mod 2 /\
     ev_m1 ev = ta / 2 /\ ev_m2 ev = tb / 2 /\ ev_cost ev = cb.
 Proof.
-  intros tv comps positions costs evs ev ND H HI; unfold find_recombination in H.
+  intros er tv comps positions costs evs ev ND H HI; unfold find_recombination in H.
+  assert (Hbody : (if negb ((length tv =? length positions)%nat && (length positions =? length costs)%nat) then None
+    else if negb (forallb (fun pc => existsb (Z.eqb (fst pc)) positions) comps) then None
+    else match map_opt (fun b => map_opt (fun p => option_map (pair p) (lookup p (combine positions (combine tv costs)))) (block_of comps b)) (block_ids comps) with
+         | None => None
+         | Some blocks => Some (isort ev_leb (flat_map block_events blocks))
+         end) = Some evs).
+  { destruct er; [exact H|]. destruct positions; [injection H as <-; destruct HI | exact H]. }
+  clear H; rename Hbody into H.
   destruct (negb _); [discriminate|].
   destruct (negb _); [discriminate|].
   set (cols := combine positions (combine tv costs)) in *.
@@ -639,8 +647,8 @@ Proof.
       replace (k - start)%nat with (S (k - S start)) by lia; exact Hn.
 Qed.
 
-Lemma inst_rec_entries_spec : forall chromname i es e,
-  NoDup (map fst (i_comps i)) -> inst_rec_entries chromname i = Some es -> In e es ->
+Lemma inst_rec_entries_spec : forall er chromname i es e,
+  NoDup (map fst (i_comps i)) -> inst_rec_entries er chromname i = Some es -> In e es ->
   exists k child father mother b ta ca tb cb,
     nth_error (i_trios i) k = Some (child, (father, mother)) /\
     ce_child e = child /\ ce_chrom e = chromname /\
@@ -654,16 +662,16 @@ Lemma inst_rec_entries_spec : forall chromname i es e,
     ta <> tb /\ ce_f1 e = ta mod 2 /\ ce_f2 e = tb mod 2 /\ ce_m1 e = ta / 2 /\ ce_m2 e = tb / 2 /\
     ce_cost e = cb.
 Proof.
-  intros chromname i es e ND H HI; unfold inst_rec_entries in H.
+  intros er chromname i es e ND H HI; unfold inst_rec_entries in H.
   destruct (map_opt _ _) as [ll|] eqn:Ell; [|discriminate]; cbn [option_map] in H; injection H as <-.
   apply in_concat in HI; destruct HI as [l [Hl He]].
   destruct (map_opt_In _ _ _ _ _ _ Ell Hl) as [[k [child [father mother]]] [Hk Htr]].
   destruct (In_combine_seq _ _ _ _ _ Hk) as [Hnth _]; rewrite Nat.sub_0_r in Hnth.
   unfold trio_rec_entries in Htr; cbn [fst snd] in Htr.
-  destruct (find_recombination _ _ _ _) as [evs|] eqn:Ef; [|discriminate].
+  destruct (find_recombination _ _ _ _ _) as [evs|] eqn:Ef; [|discriminate].
   cbn [option_map] in Htr; injection Htr as <-.
   apply in_map_iff in He; destruct He as [ev [<- Hev]].
-  destruct (find_recombination_spec _ _ _ _ _ _ ND Ef Hev)
+  destruct (find_recombination_spec _ _ _ _ _ _ _ ND Ef Hev)
     as [b [ta [ca [tb [cb [H1 [H2 [H3 [H4 [H5 [H6 [H7 [H8 [H9 [H10 [H11 H12]]]]]]]]]]]]]]]].
   exists k, child, father, mother, b, ta, ca, tb, cb.
   cbn [entry_of_event ce_child ce_chrom ce_p1 ce_p2 ce_f1 ce_f2 ce_m1 ce_m2 ce_cost].
@@ -714,8 +722,8 @@ Proof.
   apply nodupb_NoDup; assumption.
 Qed.
 
-Theorem recombinations_within_set : forall gr rr pr o ids vs cs out lines e,
-  run gr rr pr o ids vs cs = Some out -> run_wf ids cs = true ->
+Theorem recombinations_within_set : forall gr rr pr er o ids vs cs out lines e,
+  run gr rr pr er o ids vs cs = Some out -> run_wf ids cs = true ->
   out_recs out = Some lines -> In (Entry e) lines ->
   exists c i k child father mother b ta ca tb cb,
     In c cs /\ c_selected c = true /\ In i (c_insts c) /\
@@ -731,17 +739,17 @@ Theorem recombinations_within_set : forall gr rr pr o ids vs cs out lines e,
     ta <> tb /\ ce_f1 e = ta mod 2 /\ ce_f2 e = tb mod 2 /\ ce_m1 e = ta / 2 /\ ce_m2 e = tb / 2 /\
     ce_cost e = cb.
 Proof.
-  intros gr rr pr o ids vs cs out lines e Hrun Hwf Hlines HI.
-  destruct (run_inv _ _ _ _ _ _ _ _ Hrun) as [rs [Hrs [_ [_ [Hr _]]]]].
+  intros gr rr pr er o ids vs cs out lines e Hrun Hwf Hlines HI.
+  destruct (run_inv _ _ _ _ _ _ _ _ _ Hrun) as [rs [Hrs [_ [_ [Hr _]]]]].
   assert (Ho : o_recs o = true).
   { destruct (o_recs o); [reflexivity|]. rewrite Hr in Hlines; discriminate. }
   rewrite Hr, Ho in Hlines; cbn [requested] in Hlines.
   destruct (write_calls_In _ _ _ _ _ Hlines HI) as [es [Hes He]].
-  pose proof (rec_calls_instances _ _ _ _ _ _ Ho Hrs) as HF.
+  pose proof (rec_calls_instances _ _ _ _ _ _ _ Ho Hrs) as HF.
   destruct (Forall2_In_r _ _ _ _ _ _ HF Hes) as [[c i] [Hci Hie]]; cbn [fst snd] in Hie.
   destruct (instances_In _ _ _ Hci) as [Hc [Hsel Hi]].
   pose proof (inst_wf_comps _ _ (run_wf_inst _ _ _ _ Hwf Hc Hi)) as ND.
-  destruct (inst_rec_entries_spec _ _ _ _ ND Hie He)
+  destruct (inst_rec_entries_spec _ _ _ _ _ ND Hie He)
     as [k [child [father [mother [b [ta [ca [tb [cb Hall]]]]]]]]].
   exists c, i, k, child, father, mother, b, ta, ca, tb, cb; tauto.
 Qed.
@@ -977,12 +985,12 @@ Proof.
   - rewrite Hro, IH; reflexivity.
 Qed.
 
-Lemma gt_calls_diffs : forall pr o ids vs cs rs,
+Lemma gt_calls_diffs : forall pr er o ids vs cs rs,
   o_gts o = true -> (forall c, In c cs -> NoDup (target_names c)) ->
-  map_opt (chrom_step pr o ids vs) cs = Some rs ->
+  map_opt (chrom_step pr er o ids vs) cs = Some rs ->
   concat (flat_map cr_gts rs) = run_diffs (pos_shift pr) cs (map cr_vcf rs).
 Proof.
-  intros pr o ids vs cs rs Ho Hnd H; apply map_opt_Forall2 in H.
+  intros pr er o ids vs cs rs Ho Hnd H; apply map_opt_Forall2 in H.
   induction H as [|c r t rs' Hc _ IH]; unfold run_diffs; cbn [flat_map map combine concat].
   - reflexivity.
   - rewrite concat_app; f_equal.
@@ -1002,32 +1010,32 @@ Qed.
 
 (* the changed-genotype list of a run whose file is opened once: header, then exactly the calls whose
    genotype differs between input and output VCF, position column = 0-based position + pos_shift *)
-Theorem changes_are_diffs_run : forall rr pr o ids vs cs out,
-  o_gts o = true -> run PerRun rr pr o ids vs cs = Some out -> run_wf ids cs = true ->
+Theorem changes_are_diffs_run : forall rr pr er o ids vs cs out,
+  o_gts o = true -> run PerRun rr pr er o ids vs cs = Some out -> run_wf ids cs = true ->
   length (out_vcf out) = length cs /\
   out_gts out = Some (Header :: map Entry (run_diffs (pos_shift pr) cs (out_vcf out))).
 Proof.
-  intros rr pr o ids vs cs out Ho H Hwf.
-  destruct (run_inv _ _ _ _ _ _ _ _ H) as [rs [Hrs [_ [Hg [_ Hv]]]]].
+  intros rr pr er o ids vs cs out Ho H Hwf.
+  destruct (run_inv _ _ _ _ _ _ _ _ _ H) as [rs [Hrs [_ [Hg [_ Hv]]]]].
   split.
   - rewrite Hv, map_length. apply map_opt_Forall2 in Hrs.
     clear - Hrs; induction Hrs; cbn [length]; [reflexivity | f_equal; assumption].
   - rewrite Hg, Ho, Hv; cbn [requested]; rewrite write_calls_PerRun.
-    rewrite (gt_calls_diffs pr o ids vs cs rs Ho); [reflexivity | | exact Hrs].
+    rewrite (gt_calls_diffs pr er o ids vs cs rs Ho); [reflexivity | | exact Hrs].
     intros c Hc; eapply run_wf_targets; eassumption.
 Qed.
 
 (* frame: calls of chromosomes that are not processed and of samples that are not phased keep their genotype *)
-Theorem output_frame : forall gr rr pr o ids vs cs out,
-  run gr rr pr o ids vs cs = Some out -> run_wf ids cs = true ->
+Theorem output_frame : forall gr rr pr er o ids vs cs out,
+  run gr rr pr er o ids vs cs = Some out -> run_wf ids cs = true ->
   Forall2 (fun c ovc =>
              Forall2 (fun r oc => forall s, c_selected c = false \/ ~ In s (target_names c) ->
                                  lookup s oc = option_map gcode (lookup s (v_gts r)))
                      (c_records c) ovc)
           cs (out_vcf out).
 Proof.
-  intros gr rr pr o ids vs cs out H Hwf.
-  destruct (run_inv _ _ _ _ _ _ _ _ H) as [rs [Hrs [_ [_ [_ Hv]]]]]; rewrite Hv.
+  intros gr rr pr er o ids vs cs out H Hwf.
+  destruct (run_inv _ _ _ _ _ _ _ _ _ H) as [rs [Hrs [_ [_ [_ Hv]]]]]; rewrite Hv.
   assert (Hnd : forall c, In c cs -> NoDup (target_names c)) by (intros c Hc; eapply run_wf_targets; eassumption).
   apply map_opt_Forall2 in Hrs; clear H Hv Hwf.
   induction Hrs as [|c r t rs' Hc _ IH]; cbn [map]; constructor.
@@ -1056,16 +1064,16 @@ Qed.
 
 (* run level: without --distrust-genotypes (super-reads reproduce the genotypes) no line is listed under either
    writer rule and every output genotype equals the input genotype *)
-Theorem no_changes_without_distrust_run : forall gr rr pr o ids vs cs out,
-  run gr rr pr o ids vs cs = Some out ->
+Theorem no_changes_without_distrust_run : forall gr rr pr er o ids vs cs out,
+  run gr rr pr er o ids vs cs = Some out ->
   (forall c, In c cs -> c_selected c = true -> superreads_conform (targets_of (c_insts c)) (c_records c)) ->
   (forall lines e, out_gts out = Some lines -> ~ In (Entry e) lines) /\
   Forall2 (fun c ovc => Forall2 (fun r oc => forall s, lookup s oc = option_map gcode (lookup s (v_gts r)))
                                 (c_records c) ovc)
           cs (out_vcf out).
 Proof.
-  intros gr rr pr o ids vs cs out H Hconf.
-  destruct (run_inv _ _ _ _ _ _ _ _ H) as [rs [Hrs [_ [Hg [_ Hv]]]]].
+  intros gr rr pr er o ids vs cs out H Hconf.
+  destruct (run_inv _ _ _ _ _ _ _ _ _ H) as [rs [Hrs [_ [Hg [_ Hv]]]]].
   apply map_opt_Forall2 in Hrs.
   assert (Hall : Forall2 (fun c r =>
              (forall es, In es (cr_gts r) -> es = []) /\
@@ -1149,7 +1157,7 @@ Theorem lists_cover_run_refuted :
   exists o ids vs cs out,
     run_wf ids cs = true /\ run_current o ids vs cs = Some out /\
     ~ (exists calls,
-         Forall2 (fun ci es => inst_rec_entries (c_name (fst ci)) (snd ci) = Some es) (instances cs) calls /\
+         Forall2 (fun ci es => inst_rec_entries er (c_name (fst ci)) (snd ci) = Some es) (instances cs) calls /\
          out_recs out = Some (Header :: map Entry (concat calls))) /\
     ~ (exists calls,
          Forall2 (fun c es => exists wr,
@@ -1174,12 +1182,104 @@ Qed.
 (* even with the file opened once per run, the position column of the current code is not the VCF POS *)
 Theorem changes_are_diffs_refuted :
   exists o ids vs cs out,
-    run_wf ids cs = true /\ run PerRun PerRun current_posrule o ids vs cs = Some out /\
+    run_wf ids cs = true /\ run PerRun PerRun current_posrule current_emptyrule o ids vs cs = Some out /\
     out_gts out <> Some (Header :: map Entry (run_diffs 1 cs (out_vcf out))).
 Proof.
-  destruct (run PerRun PerRun current_posrule wit_opts wit_ids wit_samples wit_cs) as [out|] eqn:Er;
+  destruct (run PerRun PerRun current_posrule current_emptyrule wit_opts wit_ids wit_samples wit_cs) as [out|] eqn:Er;
     [|vm_compute in Er; discriminate].
   exists wit_opts, wit_ids, wit_samples, wit_cs, out.
   split; [vm_compute; reflexivity|]. split; [exact Er|].
   vm_compute in Er; injection Er as <-; vm_compute; discriminate.
+Qed.
+
+(* ------------------------------------------------------------------ totality of the recombination writer *)
+Lemma map_opt_total : forall (A B : Type) (f : A -> option B) (l : list A),
+  (forall a, In a l -> exists b, f a = Some b) -> exists r, map_opt f l = Some r.
+Proof.
+  intros A B f l; induction l as [|a t IH]; intros H; cbn [map_opt].
+  - exists []; reflexivity.
+  - destruct (H a (or_introl eq_refl)) as [b Hb]; rewrite Hb.
+    destruct IH as [r Hr]; [intros a' Ha'; apply H; right; exact Ha'|].
+    rewrite Hr; exists (b :: r); reflexivity.
+Qed.
+
+Lemma lookup_combine_In : forall (V : Type) (l1 : list Z) (l2 : list V) (p : Z),
+  In p l1 -> length l1 = length l2 -> exists v, lookup p (combine l1 l2) = Some v.
+Proof.
+  intros V l1; induction l1 as [|x t IH]; intros [|y l2] p Hin Hlen; cbn [length] in Hlen; try discriminate.
+  - destruct Hin.
+  - cbn [combine lookup]; destruct (p =? x) eqn:E; [exists y; reflexivity|].
+    destruct Hin as [->|Hin]; [rewrite Z.eqb_refl in E; discriminate|].
+    apply IH; [exact Hin | injection Hlen as Hlen; exact Hlen].
+Qed.
+
+Theorem find_recombination_total : forall er tv comps positions costs,
+  length tv = length positions -> length positions = length costs ->
+  (forall pc, In pc comps -> In (fst pc) positions) ->
+  exists evs, find_recombination er tv comps positions costs = Some evs.
+Proof.
+  intros er tv comps positions costs H1 H2 Hsub; unfold find_recombination.
+  assert (Hgoal : exists evs, (if negb ((length tv =? length positions)%nat && (length positions =? length costs)%nat) then None
+    else if negb (forallb (fun pc => existsb (Z.eqb (fst pc)) positions) comps) then None
+    else match map_opt (fun b => map_opt (fun p => option_map (pair p) (lookup p (combine positions (combine tv costs)))) (block_of comps b)) (block_ids comps) with
+         | None => None
+         | Some blocks => Some (isort ev_leb (flat_map block_events blocks))
+         end) = Some evs);
+  [|destruct er; [exact Hgoal|]; destruct positions; [exists []; reflexivity | exact Hgoal]].
+  rewrite H1, H2, !Nat.eqb_refl; cbn [andb negb].
+  assert (Hf : forallb (fun pc => existsb (Z.eqb (fst pc)) positions) comps = true).
+  { apply forallb_forall; intros pc Hpc; apply existsb_exists.
+    exists (fst pc); split; [apply Hsub; exact Hpc | apply Z.eqb_refl]. }
+  rewrite Hf; cbn [negb].
+  destruct (map_opt_total _ _
+              (fun b => map_opt (fun p => option_map (pair p)
+                                   (lookup p (combine positions (combine tv costs)))) (block_of comps b))
+              (block_ids comps)) as [blocks Hb].
+  - intros b _; apply map_opt_total; intros p Hp.
+    apply block_of_In in Hp; specialize (Hsub _ Hp); cbn [fst] in Hsub.
+    destruct (lookup_combine_In _ positions (combine tv costs) p Hsub) as [v Hv].
+    + rewrite combine_length; lia.
+    + rewrite Hv; exists (p, v); reflexivity.
+  - rewrite Hb; eexists; reflexivity.
+Qed.
+
+(* with cost vectors as long as the position lists, write_recombination_list never fails on an instance *)
+Theorem inst_rec_entries_total : forall er chromname i,
+  length (i_tv i) = length (i_positions i) -> length (i_positions i) = length (i_costs i) ->
+  (forall pc, In pc (i_comps i) -> In (fst pc) (i_positions i)) ->
+  exists es, inst_rec_entries er chromname i = Some es.
+Proof.
+  intros er chromname i H1 H2 Hsub; unfold inst_rec_entries.
+  destruct (map_opt_total _ _ (trio_rec_entries er chromname i)
+              (combine (seq 0 (length (i_trios i))) (i_trios i))) as [ll Hll].
+  - intros kt _; unfold trio_rec_entries.
+    destruct (find_recombination_total er (tv_of_trio (length (i_trios i)) (fst kt) (i_tv i))
+                (i_comps i) (i_positions i) (i_costs i)) as [evs Hevs]; auto.
+    + unfold tv_of_trio; rewrite map_length; exact H1.
+    + rewrite Hevs; eexists; reflexivity.
+  - rewrite Hll; eexists; reflexivity.
+Qed.
+
+(* CURRENT cost computers (third finding): uniform_recombination_map and recombination_cost_map return a
+   vector of length max 1 (number of positions); a family without accessible variant then trips the
+   assertion of find_recombination and the run dies as soon as --recombination-list is given. *)
+Definition wit_empty_inst : inst :=
+  mkInst [1; 2; 3] [([], []); ([], []); ([], [])] [(1, (2, 3))] [] [] [0] [] [] [].
+Definition wit_empty_cs : list chrom :=
+  [mkChrom 10 true [mkRec 99 7 [8] [(1, [1; 1]); (2, [1; 1]); (3, [1; 1])];
+                    mkRec 199 7 [8] [(1, [1; 1]); (2, [1; 1]); (3, [1; 1])]] [wit_empty_inst]].
+
+Theorem run_completes_refuted :
+  exists o ids vs cs,
+    run_wf ids cs = true /\
+    (forall ci, In ci (instances cs) ->
+       length (i_costs (snd ci)) = Nat.max 1 (length (i_positions (snd ci))) /\
+       length (i_tv (snd ci)) = length (i_positions (snd ci))) /\
+    run_current o ids vs cs = None /\
+    run_current (mkOpts (o_reads o) (o_gts o) false) ids vs cs <> None.
+Proof.
+  exists (mkOpts true true true), wit_ids, wit_samples, wit_empty_cs.
+  split; [vm_compute; reflexivity|]. split.
+  - intros ci [<-|[]]; vm_compute; auto.
+  - split; [vm_compute; reflexivity | vm_compute; discriminate].
 Qed.
